@@ -9,3 +9,4 @@
 -/
 import DuckModel.Props.C08Core
 import DuckModel.Props.C08Indexed
+import DuckModel.Props.C08Translated
